@@ -1069,6 +1069,8 @@ def gen_main(ctx):
         if relay is not None and relay.startswith(b"ws://") and member(new_matcher(pat), host_of(relay)) and rng.random() < 0.7:
             first = relay            # the broker hands back the operator's own plain-WebSocket relay
         second = rng.choice([b"wss://" + outside + b"/", b"wss://" + outside + b"/", b"ws://" + outside + b"/", b"wss://" + inside + b".evil.example/"])
+        if relay and relay != b"%zz" and not member(new_matcher(pat), host_of(relay)) and rng.random() < 0.6:
+            second = b"wss://" + relay.split(b"://", 1)[1]      # the operator's own relay host, outside the pattern: judged like any other
         return [first, second, b"wss://" + inside + b"/"]
 
     def case(relay, pattern, allow, kind, extras=None, offers=None, broker_path="/"):
@@ -1189,11 +1191,8 @@ def main_prop(c, tok, impl):
     res = f.get("res", "").split(",") if f.get("res") else []
     if len(res) != len(c["offers"]) or any(r not in ("proceed", "refuse") for r in res):
         return ("`%s`: %d sessions answered with: %s" % (shown, len(c["offers"]), impl[:200]), "proxy-main-config")
-    if f.get("pattern") != hx(pattern):
-        return ("`%s`: the polls announce the relay pattern %s, the command line says %r" % (shown, f.get("pattern"), pattern), "proxy-main-config")
-    if unhx(f.get("path", "x")) != (c["broker_path"] + "proxy").encode():
-        return ("`%s`: the polls go to %r" % (shown, unhx(f.get("path", "x"))), "proxy-main-config")
     allow = main_allow(c)
+    late = None
     for o, r in zip(c["offers"], res):
         t = tok[o].split(";")
         if t[1] == "E":
@@ -1207,10 +1206,15 @@ def main_prop(c, tok, impl):
             why = ("its scheme is %r and -allow-non-tls-relay was not given" % unhx(t[2]).decode() if t[1] == "P" and impl_member(hx(pattern), t[3])
                    else "its host is outside the pattern %r" % pattern if t[1] == "P" else "it does not parse")
             return ("`%s`: the session for the broker-supplied relay URL %r proceeds although %s" % (shown, o, why), "proxy-relay-url")
-        if r == "refuse" and ok:
-            return ("`%s`: the session for the broker-supplied relay URL %r is refused although its host is inside the pattern %r and %s"
+        if r == "refuse" and ok and late is None:
+            late = ("`%s`: the session for the broker-supplied relay URL %r is refused although its host is inside the pattern %r and %s"
                     % (shown, o, pattern, "-allow-non-tls-relay was given" if allow else "its scheme is wss"), "proxy-main-config")
-    return None
+    if f.get("pattern") != hx(pattern):
+        return ("`%s`: the polls announce the relay pattern %r, the command line says %r"
+                % (shown, unhx(f["pattern"]) if f.get("pattern", "n") != "n" else None, pattern), "proxy-main-config")
+    if unhx(f.get("path", "x")) != (c["broker_path"] + "proxy").encode():
+        return ("`%s`: the polls go to %r" % (shown, unhx(f.get("path", "x"))), "proxy-main-config")
+    return late
 
 
 def main_strip(impl):
@@ -1275,6 +1279,10 @@ def run(ctx):
         "broker-supplied relay URL); every answer is compared with the model's history-free decision for that request alone"]
     ctx.trusted.append("scripted broker RoundTripper and pion client in harness/overlay/proxy/lib/zz_verif_c06_test.go; "
                        "poll/offer/answer choreography in harness/overlay/broker/zz_verif_c06_test.go")
+    ctx.trusted.append("HTTP stub broker in harness/overlay/proxy/zz_verif_c06_main_test.go (the real main() of ./proxy run in-process, one "
+                       "process per command line; a session counts as accepted when the proxy POSTs its answer before its next poll)")
+    ctx.assumptions.append("proxy main(): -broker (the stub) and -stun (an unresolvable host) are always given by the harness; NATProbeURL has no "
+                           "flag; the observation is the session decision (answer sent or not), the pattern announced in the polls, and exit by log.Fatal")
     # (i) exported namematcher API
     exe_nm = vlib.go_build("./zz_verif/namematcher")
     lines, kinds = gen_matcher(ctx)
